@@ -27,6 +27,10 @@ checks = {
    technique="exhaustive table enumeration on the discovered lattice + bounded analytic families, independent zero-crossing oracle on every vertex",
    text="(A) every {-1,0,1}^8 table and 256 sign configurations x <=2 special corners (magnitudes 1/4, 1e-13, 3) of a free cell, and position-coded fields (all corner values distinct; 5 sign patterns incl. exact zeros and 1e-13) on 7 lattices whose y-z layers have 81/99/100/121/200/225/300 points (evaluation batch size 100 hit exactly, +-1, twice), through both real renderers: every mesh vertex must lie on an edge of the discovered lattice whose end values straddle zero, at the independently computed linear zero crossing. (B) planes in all 124 directions of {-2..2}^3 x 5 offsets, spheres (3 radii x 9 centres), 6 solids x 3 poses, at 3-7 resolutions, both renderers: |f(v)| within the bound of the property (1e-9 size / h^2/(8(R-h)) / h), mesh sample points within a cell diagonal, normals along the gradient, vertices inside the sampled box, sampled box covers the bounding box; completeness (sphere incl. poles, box faces, shapes in their own tight boxes) by exact point-to-mesh distance; volume error ratio >= 3 per doubling on the ladder 8,16,32(,64).",
    note="continuous quantifiers decided on finite families; convergence on a finite ladder"),
+ "C08": dict(engine="L", design="3/C08",
+   technique="exhaustive table enumeration on the discovered 2D lattice through the real renderers + bounded analytic families",
+   text="Through the real uniform and quadtree marching-squares renderers (segments collected via sdf.NewLine2Buffer): all 7^4 tables over {-1,-1/4,-1e-13,0,1e-13,1/4,1} of a free cell, both adjacent-pair orientations x 5^6 (thorough 7^6) tables, all 2^16 sign tables of a 4x4 corner block, position-coded fields (all corner values distinct incl. the boundary rows) on 4 lattices x 5 patterns. Oracle: welded (1e-6 cell) end points have even degree (exactly 2 or 4 without degenerate values), no zero-length segment, every end point is the independently computed linear zero crossing of a straddling edge of the discovered lattice. Analytic: lines in 48 directions x 3 offsets (exact), circles within h^2/(8(R-h)), boxes; sampled area covers the box; perimeter error ratio >= 3 per doubling on 8..64 (256).",
+   note="segment orientation is not part of the property and is not checked (the pristine tables are not consistently oriented)"),
 }
 props = [json.loads(l) for l in open(os.path.join(V, "properties.jsonl"))]
 pending_reason = "check not built yet in this session (work in progress, see DESIGN.md section 3 for the planned bounded-exhaustive check)"
